@@ -27,7 +27,9 @@ Proof.
   pose proof (i_st _ _ _ _ _ _ _ _ _ I1) as HS. pose proof (st_sinv _ _ _ _ _ HS) as HS1.
   unfold scan_node, finish_deferred in Hiff.
   destruct (finish_fold (stack_of [l0]) (deferred s1) s1 HS1) as (m' & Ef & Hm').
-  fold s1 in Hiff. rewrite Ef in Hiff. cbn [missing with_deferred with_missing] in Hiff.
+  fold s1 in Hiff. rewrite Ef in Hiff.
+  destruct (reports_shape (pending_dicts (with_missing s1 m') (top (stack_of [l0]))) (with_missing s1 m')) as (u0 & Eu0).
+  rewrite Eu0 in Hiff. cbn [missing with_deferred with_missing with_unused] in Hiff.
   (* at the end of the module every scope holds its expected roots *)
   assert (Hclosed : forall i, i < next_id s1 -> forall y, has s1 i y = true <-> In y (exp i)).
   { intros i Hi y. destruct (Nat.eq_dec i (l_b l0)) as [->|Hne].
